@@ -20,8 +20,12 @@ EXPLANATION = (
     "_symbolic_mapping handles every fusable class with a non-identity mapping in a non-identity branch, and "
     "FusedBlockwise._task derives every inner block id through expr._input_block_id; R02.4 (REF) the decline guards of "
     "Blockwise._is_blockwise_fusable (concatenate, Delayed operand, contracted multi-block dimension), of the conflict "
-    "detector and of all 160 declining exits of the rewrite hooks (_accept_*, _simplify_*, _pushdown*, _lower, pushdown "
-    "gates) are structurally unchanged; R02.5 FusedBlockwise.dependencies = inner dependencies minus fused names. "
+    "detector and of all 162 declining exits of the rewrite hooks (_accept_*, _simplify_*, _pushdown*, _lower, pushdown "
+    "gates) are structurally unchanged; R02.5 FusedBlockwise.dependencies = inner dependencies minus fused names; "
+    "R02.8 sibling agreement among the five rewrites that rebuild an Elemwise around transformed inputs: the optional array operands where/out "
+    "are transformed with the inputs; R02.9 every operand loop of a Blockwise-family slice pushdown consults the operand's own extent (broadcast "
+    "axes); R02.10 a pushdown that converts output block indices into offsets on an operand's own chunks declines on the operands' grids "
+    "(position pairing needs aligned operands). "
     "Sentences 1-2 (every phase and every fired rewrite preserves values) quantify over array contents and are not decided; "
     "the REF inventory only detects that a condition under which a rewrite used to decline was weakened."
 )
@@ -288,12 +292,275 @@ def r02_7(ctx):
     return rr
 
 
-RULES = [r02_1, r02_2, r02_3, r02_4, r02_5, r02_6, r02_7]
+def _optional_array_operands(repo, cls):
+    """Parameters P of ``cls`` that the class itself tests with ``isinstance(self.P, ArrayExpr)``: operands that may
+    or may not be arrays (Elemwise.where / Elemwise.out today) - discovered from the class on every run."""
+    from ..namedeps import params_of
+
+    params = list(params_of(repo, cls))
+    out = []
+    for f in cls.methods.values():
+        for n in full_walk(f.node):
+            if isinstance(n, ast.Call) and dotted(n.func) == "isinstance" and len(n.args) == 2 and "ArrayExpr" in idents_in(n.args[1]):
+                a = n.args[0]
+                if isinstance(a, ast.Attribute) and isinstance(a.value, ast.Name) and a.value.id == "self" and a.attr in params and a.attr not in out:
+                    out.append(a.attr)
+    return params, out
+
+
+def r02_8(ctx):
+    rr = RuleResult(
+        "R02.8", "COVER",
+        "sibling agreement among the rewrites that rebuild an Elemwise around transformed inputs (slice / shuffle / rechunk / transpose pushdown, "
+        "lowering): the optional array operands (where, out - read block by block next to the inputs) are transformed with the inputs, or the "
+        "site runs only under a condition on that operand",
+        min_instances=4,
+    )
+    from ..cfg import CFG, stmt_of
+    from ..dataflow import Defs
+    from .common import chain_conjuncts
+
+    repo = ctx.repo
+    cls = repo.mod("dask_array._blockwise").cls("Elemwise")
+    params, optional = _optional_array_operands(repo, cls)
+    need(set(optional) >= {"where", "out"}, "Elemwise tests isinstance(self.where/out, ArrayExpr)")
+    need("op" in params, "Elemwise._parameters has 'op'")
+    op_slot = params.index("op")
+    for f in repo.all_functions():
+        if "/tests/" in f.module.relpath:
+            continue
+        calls = []
+        for n in body_walk(f.node):
+            if not isinstance(n, ast.Call) or not isinstance(n.func, (ast.Name, ast.Attribute)):
+                continue
+            r = repo.resolve_expr(n.func, f.module, f)
+            is_cls = r is not None and r[0] == "class" and r[1].fq == cls.fq
+            is_self_type = f.cls is not None and f.cls.fq == cls.fq and unparse(n.func) in ("type(self)", "self.__class__")
+            if is_cls or is_self_type:
+                calls.append(n)
+        if not calls:
+            continue
+        defs = Defs(f.node)
+        cfg = None
+        for call in calls:
+            if len(call.args) <= len(params) or any(isinstance(a, ast.Starred) for a in call.args[: len(params)]):
+                continue
+            head = call.args[op_slot]
+            if not (isinstance(head, ast.Attribute) and head.attr == "op"):
+                continue  # the public constructor: operands come from the caller, no node is being rewritten
+            node_txt = unparse(head.value)
+            tail = call.args[len(params):]
+            verbatim_tail = len(tail) == 1 and isinstance(tail[0], ast.Starred) and unparse(tail[0].value) == f"{node_txt}.elemwise_args"
+            cst0 = f"{f.construct}::Elemwise({node_txt}.op, ...)"
+            if verbatim_tail:
+                rr.inst(cst0, inputs="verbatim", obligation="none")
+                continue
+
+            def verbatim(e, P, depth=0):
+                t = unparse(e)
+                if t in (f"{node_txt}.{P}", f"{node_txt}.operand('{P}')", f'{node_txt}.operand("{P}")'):
+                    return True
+                if isinstance(e, ast.Name) and depth < 4 and e.id in defs.defs and e.id not in defs.params:
+                    vs = defs.defs[e.id] + defs.mutations(e.id)
+                    return bool(vs) and all(v is not None and verbatim(v, P, depth + 1) for v in vs)
+                return False
+
+            for P in optional:
+                arg = call.args[params.index(P)]
+                cst = f"{cst0}::{P}"
+                if not verbatim(arg, P):
+                    rr.inst(cst, inputs="transformed", operand="transformed", via=unparse(arg)[:40])
+                    continue
+                if cfg is None:
+                    cfg = CFG(f.node)
+                stmt = stmt_of(cfg, call)
+                conj = chain_conjuncts(cfg, stmt, f.node, f.module) if stmt is not None else set()
+                if any(f"{node_txt}.{P}" in c for c in conj):
+                    rr.inst(cst, inputs="transformed", operand="verbatim under a condition on it", condition=sorted(c for c in conj if f"{node_txt}.{P}" in c)[:2])
+                    continue
+                rr.inst(cst, inputs="transformed", operand="verbatim")
+                ctx.finding(
+                    rr, cst,
+                    f"{f.qualname} rebuilds the Elemwise around transformed inputs but passes {node_txt}.{P} through untouched and unconditionally: when {P} is an array "
+                    f"its blocks are read next to the inputs' blocks, so the rewritten node pairs transformed input blocks with untransformed {P} blocks - "
+                    f"np.multiply(x, 2, where=m, out=o); o[:, ::-1] computed other values than NumPy, o[1] raised. The sibling rewrites (shuffle, rechunk, transpose pushdown, lowering) transform it",
+                    func=f, node=call,
+                )
+    return rr
+
+
+def _receiver_root(n):
+    while isinstance(n, (ast.Attribute, ast.Call, ast.Subscript)):
+        n = n.func if isinstance(n, ast.Call) else n.value
+    return n.id if isinstance(n, ast.Name) else None
+
+
+def _closure_nodes(expr, func_node, defs, limit=6):
+    """All ast nodes ``expr`` may derive from inside ``func_node``: the expression itself, the definitions of the local
+    names it mentions, values appended/added to those names through any call chain rooted at them
+    (``g.setdefault(k, set()).add(v)``), transitively (depth ``limit``)."""
+    chains = {}
+    for c in ast.walk(func_node):
+        if isinstance(c, ast.Call) and isinstance(c.func, ast.Attribute):
+            r = _receiver_root(c.func.value)
+            if r is not None:
+                chains.setdefault(r, []).extend(list(c.args) + [k.value for k in c.keywords])
+    out, seen, work = [], set(), [(expr, 0)]
+    while work:
+        e, d = work.pop()
+        for n in ast.walk(e):
+            out.append(n)
+            if isinstance(n, ast.Name) and n.id not in seen and d < limit:
+                seen.add(n.id)
+                for v in defs.defs.get(n.id, []) + chains.get(n.id, []):
+                    if v is not None:
+                        work.append((v, d + 1))
+    return out
+
+
+def _operand_loops(f):
+    """``for`` loops of ``f`` that slice a loop-bound operand: the body contains ``new_collection(<X>)[...]`` with X
+    assigned inside the loop (target or body).  Returns [(loop, X, subscript)]."""
+    out = []
+    for loop in body_walk(f.node):
+        if not isinstance(loop, ast.For):
+            continue
+        bound = {n.id for n in ast.walk(loop.target) if isinstance(n, ast.Name)}
+        for st in ast.walk(loop):
+            if isinstance(st, ast.Assign):
+                for t in st.targets:
+                    bound |= {n.id for n in ast.walk(t) if isinstance(n, ast.Name)}
+        for n in ast.walk(loop):
+            if isinstance(n, ast.Subscript) and isinstance(n.value, ast.Call) and (dotted(n.value.func) or "").endswith("new_collection") and n.value.args:
+                a = n.value.args[0]
+                if isinstance(a, ast.Name) and a.id in bound:
+                    # innermost enclosing loop only
+                    inner = [l2 for l2 in ast.walk(loop) if isinstance(l2, ast.For) and l2 is not loop and any(x is n for x in ast.walk(l2))]
+                    if not inner:
+                        out.append((loop, a.id, n))
+    return out
+
+
+def _blockwise_family_slice_hooks(repo):
+    base = repo.mod("dask_array._blockwise").cls("Blockwise")
+    seen = set()
+    for c in [base] + list(repo.subclasses(base, strict=True)):
+        for name, f in c.methods.items():
+            if name.startswith("_accept_slice") and f.fq not in seen:
+                seen.add(f.fq)
+                yield c, f
+
+
+def r02_9(ctx):
+    rr = RuleResult(
+        "R02.9", "GUARD",
+        "one-sided handling / sibling agreement in the Blockwise family's slice pushdowns: a loop that derives each operand's selection from the "
+        "output's selection consults the operand's own extent on that axis (a size-1 axis broadcast against a longer output axis must not take "
+        "the output's slice)",
+        min_instances=3,
+    )
+    from ..dataflow import Defs
+
+    def extent_tests(region, owner, x, defs, f, depth=2):
+        """Comparisons ``<something derived from x.shape/numblocks/chunks> ==/!= 1`` inside ``region`` (a loop of
+        ``owner``), or inside a same-module helper / method of the same class that the region hands ``x`` to."""
+        out = []
+        for n in ast.walk(region):
+            if isinstance(n, ast.Compare) and len(n.ops) == 1 and isinstance(n.ops[0], (ast.Eq, ast.NotEq)):
+                sides = [n.left, n.comparators[0]]
+                if not any(isinstance(sd, ast.Constant) and sd.value == 1 and not isinstance(sd.value, bool) for sd in sides):
+                    continue
+                other = sides[1] if isinstance(sides[0], ast.Constant) else sides[0]
+                for m in _closure_nodes(other, owner, defs, limit=2):
+                    if isinstance(m, ast.Attribute) and m.attr in ("shape", "numblocks", "chunks") and isinstance(m.value, ast.Name) and m.value.id == x:
+                        out.append(unparse(n))
+                        break
+            elif isinstance(n, ast.Call) and depth > 0 and isinstance(n.func, (ast.Name, ast.Attribute)):
+                g = None
+                if isinstance(n.func, ast.Name):
+                    r = ctx.repo.resolve_name(n.func.id, f.module, f)
+                    g = r[1] if r and r[0] == "func" else None
+                elif isinstance(n.func.value, ast.Name) and n.func.value.id == "self" and f.cls is not None:
+                    hit = ctx.repo.class_attr(f.cls, n.func.attr)
+                    g = hit[1] if hit and isinstance(hit[1], FuncInfo) else None
+                if g is None or g.module is not f.module:
+                    continue
+                formals = [p for p in g.params if p != "self"]
+                for i, a in enumerate(n.args):
+                    if isinstance(a, ast.Name) and a.id == x and i < len(formals):
+                        out += [f"{g.name}: {t}" for t in extent_tests(g.node, g.node, formals[i], Defs(g.node), g, depth - 1)]
+                for k in n.keywords:
+                    if isinstance(k.value, ast.Name) and k.value.id == x and k.arg in formals:
+                        out += [f"{g.name}: {t}" for t in extent_tests(g.node, g.node, k.arg, Defs(g.node), g, depth - 1)]
+        return out
+
+    for c, f in _blockwise_family_slice_hooks(ctx.repo):
+        defs = Defs(f.node)
+        for loop, x, sub in _operand_loops(f):
+            cst = f"{f.construct}::operand loop over {x}"
+            consults = extent_tests(loop, f.node, x, defs, f)
+            rr.inst(cst, slices=unparse(sub)[:50], broadcast_tests=sorted(set(consults))[:3])
+            if not consults:
+                ctx.finding(
+                    rr, cst,
+                    f"{f.qualname} hands every operand the output's selection mapped through the index pattern without looking at the operand's own extent: an operand whose axis has "
+                    f"length 1 and broadcasts against a longer output axis is sliced to nothing (blockwise(np.add, 'ij', x, 'ij', y[(1, n)], 'ij')[2] raised 'Missing dependency'; with adjust_chunks IndexError). "
+                    f"The sibling Elemwise._accept_slice tests arg_shape[i] == 1",
+                    func=f, node=loop,
+                )
+    return rr
+
+
+def r02_10(ctx):
+    rr = RuleResult(
+        "R02.10", "GUARD",
+        "a Blockwise-family rewrite that converts OUTPUT block indices into element offsets on an operand's own grid (subscripts a value derived from "
+        "<operand>.chunks) pairs blocks by position, which is valid only when the operands share one grid along that index; before lowering has unified "
+        "them they need not - the function must have a declining exit whose condition derives from the operands' chunks",
+        min_instances=1,
+    )
+    from ..dataflow import Defs
+
+    for c, f in _blockwise_family_slice_hooks(ctx.repo):
+        defs = Defs(f.node)
+        for loop, x, sub in _operand_loops(f):
+            # does the loop index something derived from <x>.chunks ?
+            uses = []
+            for n in ast.walk(loop):
+                if isinstance(n, ast.Subscript) and isinstance(n.ctx, ast.Load) and n is not sub:
+                    base = n.value
+                    if isinstance(base, ast.Name):
+                        derived = any(isinstance(m, ast.Attribute) and m.attr == "chunks" and isinstance(m.value, ast.Name) and m.value.id == x for v in defs.defs.get(base.id, []) if v is not None for m in ast.walk(v))
+                        if derived:
+                            uses.append(unparse(n))
+            if not uses:
+                continue
+            cst = f"{f.construct}::block offsets on {x}.chunks"
+            guards = []
+            for st in body_walk(f.node):
+                if isinstance(st, ast.If) and any(isinstance(b, ast.Return) and (b.value is None or (isinstance(b.value, ast.Constant) and b.value.value is None)) for b in st.body):
+                    for m in _closure_nodes(st.test, f.node, defs):
+                        if isinstance(m, ast.Attribute) and m.attr == "chunks" and not (isinstance(m.value, ast.Name) and m.value.id == "self"):
+                            guards.append(unparse(st.test)[:70])
+                            break
+            rr.inst(cst, offsets=sorted(set(uses))[:3], declines_on_operand_grids=guards[:2])
+            if not guards:
+                ctx.finding(
+                    rr, cst,
+                    f"{f.qualname} indexes {sorted(set(uses))[0]} - the operand's own chunk boundaries - with block indices computed on the OUTPUT grid and never declines on the operands' grids: "
+                    f"the hook runs before lowering has unified the operands, so with x chunked (1, ...) and y chunked (3, ...) output block i is not input block i of both - "
+                    f"blockwise(f, 'ij', x, 'ij', y, 'ij', adjust_chunks=...)[2:5] computed other values than the unsliced result (silently), other grids raised",
+                    func=f, node=loop,
+                )
+    return rr
+
+
+RULES = [r02_1, r02_2, r02_3, r02_4, r02_5, r02_6, r02_7, r02_8, r02_9, r02_10]
 
 LEVEL_TEXT = (
     "Static decision of sentence 3 of C02 (fusion preserves the output-block -> input-block mapping) as sibling agreement "
     "between _task and _input_block_id over all fusable classes, exhaustiveness of the symbolic conflict detector over the "
-    "class hierarchy, and the derivation of inner block ids; plus a REF inventory (160 structural fingerprints) of every "
+    "class hierarchy, and the derivation of inner block ids; plus a REF inventory (162 structural fingerprints) of every "
     "condition under which a rewrite hook, the fusability test or the conflict detector declines, so that a weakened "
     "decline is reported at its hook. Value preservation by each fired rewrite (sentences 1-2) is not decided."
 )
